@@ -103,6 +103,21 @@ fn guid_shape(s: &str) -> &'static str {
     }
 }
 
+/// One explored case written out for the evidence file: the input and what the reference recognisers say
+/// (the implementation agreed on every path, or a finding was reported).
+fn sample_of(s: &str, deep: bool) -> serde_json::Value {
+    let b = s.as_bytes();
+    json!({
+        "input": s.escape_default().to_string(),
+        "all_construction_paths": deep,
+        "reference_accepts": {
+            "InterfaceName": r::valid_interface_name(b), "ErrorName": r::valid_error_name(b), "MemberName": r::valid_member_name(b),
+            "PropertyName": r::valid_property_name(b), "UniqueName": r::valid_unique_name(b), "WellKnownName": r::valid_well_known_name(b),
+            "BusName": r::valid_bus_name(b), "ObjectPath": r::valid_object_path(b), "Guid": r::valid_guid(b),
+        },
+    })
+}
+
 pub fn run(ctx: &mut Ctx) {
     // exhaustive strings over the alphabet
     let max_len = if ctx.thorough() { 7 } else { 5 };
@@ -131,6 +146,9 @@ pub fn run(ctx: &mut Ctx) {
             let deep = len <= 3 || g % 37 == 0;
             check_all(ctx, g, &s, deep);
             ctx.distinct(fnv(&s));
+            if len >= 3 && g % 1009 == 0 {
+                ctx.sample(sample_of(&s, deep));
+            }
         }
         global += count;
     }
@@ -166,6 +184,8 @@ pub fn run(ctx: &mut Ctx) {
                 ctx.count("boundary_strings", 1);
             }
         }
-        ctx.sample(json!({"alphabet": ALPHABET, "example": "a.Z0_", "types": 9}));
+        if let Some(last) = fam.last() {
+            ctx.sample(sample_of(last, true));
+        }
     }
 }
